@@ -125,6 +125,8 @@ pub struct DevState {
     pub oob_write: bool,
     pub n_writes: u64,
     pub n_flushes: u64,
+    /// do not materialise overlay pages for zero-fills of zero base pages (huge sparse volumes)
+    pub sparse_zero: bool,
 }
 
 impl DevState {
@@ -149,6 +151,7 @@ impl DevState {
             oob_write: false,
             n_writes: 0,
             n_flushes: 0,
+            sparse_zero: false,
         }
     }
 
@@ -198,6 +201,14 @@ impl DevState {
 
     /// raw write without logging (harness use: patching images)
     pub fn write_at(&mut self, off: u64, data: &[u8]) {
+        // zero-fill of a page that is zero in the base and not yet in the overlay: nothing to store
+        if self.sparse_zero && data.len() <= 512 && (off % PAGE) + data.len() as u64 <= PAGE && !self.overlay.contains_key(&(off / PAGE)) && data.iter().all(|b| *b == 0) {
+            let mut tmp = [0u8; 512];
+            self.base.page(off / PAGE, &mut tmp);
+            if tmp.iter().all(|b| *b == 0) {
+                return;
+            }
+        }
         let mut done = 0usize;
         while done < data.len() {
             let o = off + done as u64;
